@@ -34,7 +34,7 @@ def rand_value(rng):
     if k == 'int':
         return rng.choice([0, 1, -5, 10 ** 12])
     if k == 'float':
-        return rng.choice([0.5, 1e-9, -3.25, float('inf')])
+        return rng.choice([0.5, 1e-9, -3.25, float('inf'), 1.0, 0.0, -0.0, 1.0, 0.0])      # values that compare equal across types (True == 1 == 1.0)
     if k == 'bool':
         return rng.choice([True, False])
     if k == 'None':
